@@ -78,10 +78,23 @@ func vfNewBreaker(g *vfGhost) *CircuitBreaker {
 	verifStub("github.com/vulcand/oxy/v2/memmetrics.NewRTMetrics", func(opts []any) (*memmetrics.RTMetrics, error) { return &memmetrics.RTMetrics{}, nil })
 	verifStub("(*github.com/vulcand/oxy/v2/memmetrics.RTMetrics).Record", func(m *memmetrics.RTMetrics, code int, d time.Duration) { vfG.records++ })
 	verifStub("(*github.com/vulcand/oxy/v2/memmetrics.RTMetrics).Reset", func(m *memmetrics.RTMetrics) { vfG.resets++ })
-	// The ramp decision is C12's subject (VerifC12*): here its outcome is an arbitrary bool.
+	// The ramp decision is C12's subject (VerifC12*): here its outcome is an arbitrary bool,
+	// restricted to what the real controller can do at all: the first request of a recovery
+	// is always refused (fraction 1/1), and nothing passes while the ramp is still (almost) zero.
+	// vfArrive steers the real controller to the same outcome in native replays.
 	verifStub("(*github.com/vulcand/oxy/v2/cbreaker.ratioController).allowRequest", func(r *ratioController) bool {
 		vfG.ramp++
-		return verifBool(verifName("allow", vfG.ramp))
+		res := verifBool(verifName("allow", vfG.ramp))
+		el := clock.Now().UTC().Sub(r.start)
+		if (r.allowed == 0 && r.denied == 0) || el <= r.duration>>18 {
+			res = false
+		}
+		if res {
+			r.allowed++
+		} else {
+			r.denied++
+		}
+		return res
 	})
 	mt, err := memmetrics.NewRTMetrics()
 	verifAssert("metrics-ok", err == nil)
@@ -110,9 +123,26 @@ func vfArrive(g *vfGhost, tag string) {
 	now := clock.Now().UTC()
 	before := g.entered
 	nIn := len(g.stateIn)
+	if s0 == stateRecovering && cb.rc != nil {
+		// steer the ramp controller towards the decision number ramp+1 of the valuation
+		// (under the engine the stub above decides; natively the real float code runs)
+		if verifBool(verifName("allow", g.ramp+1)) {
+			cb.rc.allowed, cb.rc.denied = 0, 1<<30
+		} else {
+			cb.rc.allowed, cb.rc.denied = 1<<30, 0
+		}
+	}
+	var rcBefore *ratioController
+	sumBefore := 0
+	if cb.rc != nil {
+		rcBefore, sumBefore = cb.rc, cb.rc.allowed+cb.rc.denied
+	}
 	rec := &verifRecorder{}
 	cb.ServeHTTP(rec, &http.Request{Header: http.Header{}})
 	passed := g.entered > before
+	if !verifSymbolic() && cb.rc != nil && (cb.rc != rcBefore || cb.rc.allowed+cb.rc.denied != sumBefore) && g.depth == 0 {
+		g.ramp++ // native bookkeeping of the number of ramp decisions made so far
+	}
 
 	// ---- arrival: transition s0 -> s1 happened at `now`
 	s1 := cb.state
